@@ -518,6 +518,66 @@ def _merge_ok(t, decl, part, lo):
     return bool(mine) and mine[0] == r + "1"
 
 
+def gen_metrics_over(rng):
+    """Metrics mode (functional components only: compute, sequencer, one intersector) over Einsums of the plain
+    classes that the accelerator-style generators never produce: the generalised SIGMA mapping (flattening with
+    coordinate look-ups inside the flattened loop) and unpartitioned convolutions (co-iteration of a projected
+    tensor)."""
+    if rng.random() < 0.5:
+        spec, bmeta = classes.gen_sigma_like(rng)
+        out = "Z"
+        lo = list(spec["loop_order"][out])
+        expr = spec["exprs"][0]
+        first = dense.expr_tensors(expr)[0]
+        isect_rank, leader = "K1", first
+        extents = bmeta["extents"]
+        syms = {}
+    else:
+        a, b = rng.choice([1, 1, 2]), rng.choice([1, 1, 2])
+        chan = rng.random() < 0.4
+        f_ranks = (["M"] if chan else []) + ["S"]
+        o_ranks = (["M"] if chan else []) + ["Q"]
+        # F first: a leader-follower intersector on S is led by F (leader = first operand, known finding
+        # C11-LF-ORDER) and followed by the projected tensor
+        facs = ["F" + classes._access(f_ranks), "I[%s]" % " + ".join([classes._iterm(a, "q"), classes._iterm(b, "s")])]
+        decl = {"I": ["W"], "F": f_ranks, "O": o_ranks}
+        spec = {"decl": decl, "exprs": ["O" + classes._access(o_ranks) + " = " + " * ".join(facs)], "rank_order": None,
+                "partitioning": None, "loop_order": None, "spacetime": None, "arch": None, "bindings": None, "format": None}
+        out = "O"
+        lo = classes._perm(rng, o_ranks + ["S"])
+        spec["loop_order"] = {out: lo}
+        extents = {"Q": rng.randint(2, 5), "S": rng.randint(1, 3), "M": rng.randint(1, 3)}
+        extents["W"] = a * (extents["Q"] - 1) + b * (extents["S"] - 1) + 1
+        extents = {r: v for r, v in extents.items() if any(r in rs for rs in decl.values())}
+        isect_rank = "S"
+        leader = "F"
+        syms = {}
+    k = rng.randint(0, min(2, len(lo) - 1))
+    space = [lo[rng.randrange(len(lo))]] if k else []
+    spec["spacetime"] = {out: {"space": space, "time": [r for r in lo if r not in space]}}
+    arch, ainfo = _arch(rng)
+    spec["arch"] = arch
+    spec["format"] = {t: {"default": {"rank-order": list(rs), **{r: {"format": "C", "cbits": 32, "pbits": 32} for r in rs}}}
+                      for t, rs in spec["decl"].items()}
+    bl = [{"config": "cfgA", "prefix": "tmp/" + out}]
+    if rng.random() < 0.7:
+        bl.append({"component": "Mul0", "bindings": [{"op": "mul"}]})
+    if rng.random() < 0.4:
+        bl.append({"component": "Add0", "bindings": [{"op": "add"}]})
+    if rng.random() < 0.5:
+        bl.append({"component": "Seq", "bindings": [{"rank": r} for r in lo[:rng.randint(1, min(3, len(lo)))]]})
+    if rng.random() < 0.7 and isect_rank in lo:
+        c = rng.choice(["LF", "LF", "TF", "SA"])
+        b_ = {"rank": isect_rank}
+        if c == "LF":
+            b_["leader"] = leader
+        bl.append({"component": c, "bindings": [b_]})
+    spec["bindings"] = {out: bl}
+    meta = {"class": "M", "mkind": "over", "name": "over", "syms": syms, "extents": extents, "mode": "metrics",
+            "nlevels": 0, "npart": 0}
+    return spec, meta
+
+
 def _append_bindings(bl, comp, items):
     if comp == "L2":
         items = [{k: v for k, v in b.items() if k not in ("evict-on", "style")} for b in items]
@@ -528,12 +588,14 @@ def _append_bindings(bl, comp, items):
     bl.append({"component": comp, "bindings": items})
 
 
-def gen_metrics(rng, repo="/repo", accel_p=0.35, part_p=0.15, lf_any_leader=False):
+def gen_metrics(rng, repo="/repo", accel_p=0.32, part_p=0.15, over_p=0.1, lf_any_leader=False):
     x = rng.random()
     if x < accel_p:
         return gen_accel(rng, repo)
     if x < accel_p + part_p:
         return gen_synth_part(rng, lf_any_leader)
+    if x < accel_p + part_p + over_p:
+        return gen_metrics_over(rng)
     return gen_synth(rng, lf_any_leader)
 
 
